@@ -51,7 +51,8 @@ class Scope:
 
 class Gen:
     def __init__(self, rng, trim=False, lstrip=False, errors=0.012, wsctl=0.15, line_prefixes=False):
-        self.line_prefixes = line_prefixes    # environment has line_statement_prefix '%%' and line_comment_prefix '##'
+        # environment has a line_statement_prefix / line_comment_prefix: True = ('%%', '##'), or the pair itself
+        self.line_prefixes = ("%%", "##") if line_prefixes is True else line_prefixes
         self.r = rng
         self.trim, self.lstrip = trim, lstrip
         self.errors = errors
@@ -426,10 +427,11 @@ class Gen:
         if self.line_prefixes and r.random() < 0.12:
             f("line-statement")
             j = r.randint(0, 3)
-            if j == 0: return "\n%% if " + self.e_bool(sc, 1) + "\n" + self.text(6) + "\n%% endif\n"
-            if j == 1: return "\n  %% for lv in range(2)\n" + self.text(4) + "{{ lv }}\n%% endfor\n"
-            if j == 2: return "\n## a line comment " + self.text(4).replace("\n", " ") + "\n"
-            return self.text(4).replace("\n", " ") + " ## trailing comment\n"
+            lsp, lcp = self.line_prefixes
+            if j == 0: return "\n" + lsp + " if " + self.e_bool(sc, 1) + "\n" + self.text(6) + "\n" + lsp + " endif\n"
+            if j == 1: return "\n  " + lsp + " for lv in range(2)\n" + self.text(4) + "{{ lv }}\n" + lsp + " endfor\n"
+            if j == 2: return "\n" + lcp + " a line comment " + self.text(4).replace("\n", " ") + "\n"
+            return self.text(4).replace("\n", " ") + " " + lcp + " trailing comment\n"
         if k <= 2:
             return self.text()
         if k <= 6:
